@@ -11,7 +11,18 @@ checks = []
 for pid in ALL:
     if pid not in PROPS or pid not in TEXT:
         continue
-    t = TEXT[pid]
+    t = dict(TEXT[pid])
+    tables = set(PROPS[pid].get("tables", []))
+    for part in PROPS[pid].get("also", []):
+        tables |= set(PROPS[part].get("tables", []))
+    if "T0" in tables:
+        t["level"] += (" Table tie (Props/Tie.v, part of this check): the format tables the theorems are stated over are regenerated from the source text AND from the constants as compiled "
+                       "(nvh dump-formats); obligations: every keyword field and copulas() as read = as compiled, the character predicates as read = the compiled functions on every char "
+                       "(Proofs/RangesP.v), the model's dictionary construction = the entries and iteration order of the real nar_dev_utils dictionaries.")
+        t["note"] += " Second source of the data tables: harness/src/dumpfmt.rs + rustc (cross-check and fall-back of T1/T2/T2v, DESIGN 9.8)."
+    if "T2d" in tables:
+        t["level"] += (" Documented vocabulary (Props/TieDoc.v): every lexical dictionary entry whose same-line comment names its constructor equals the enum table's keyword of that constructor; "
+                       "a disagreement is searched on the real code (harness/src/docvocab.rs: the smallest text using the documented keyword, both pipelines).")
     checks.append({
         "property_id": pid,
         "quick_cmd": f"./check {pid} --tier quick",
